@@ -106,7 +106,7 @@ def _enum(arg):
 
 def run(tier, seed, rec):
     quick = tier == "quick"
-    n_ex, steps, shards = (100, 40, 16) if quick else (1200, 50, 32)
+    n_ex, steps, shards = (100, 40, 16) if quick else (500, 50, 32)
     common.pool_merge(_shard, [(seed, i, n_ex, steps) for i in range(shards)], rec)
     L = 4 if quick else 6
     common.pool_merge(_enum, [(L, first) for first in range(9)], rec)
